@@ -275,7 +275,7 @@ class WorkerPool:
     """N harness processes, each reading JSON lines on stdin and answering one
     JSON line per request on stdout (same order)."""
 
-    def __init__(self, ctx, binary, n=None, args=None, env_extra=None, request_timeout=120):
+    def __init__(self, ctx, binary, n=None, args=None, env_extra=None, request_timeout=60):
         self.request_timeout = request_timeout   # seconds one request may take before the worker is declared hung
         self.waiting = {}                         # worker index -> time it started waiting for the current answer
         self.hung = set()
@@ -377,11 +377,15 @@ class WorkerPool:
                         culprit = todo[done]
                         if i in self.hung:
                             self.hung.discard(i)
+                            self.hangs = getattr(self, "hangs", 0) + 1
                             with lock:
                                 on_result(culprit, {"ok": False, "fatal": True, "hang": True, "step": -1,
                                                     "viol": ["the code under test did not return within %d s while executing this scenario (endless loop)" % self.request_timeout]})
                             todo = todo[done + 1:]
                             self.procs[i] = self._spawn(i)
+                            if self.hangs >= 6:
+                                # enough: every further hang costs a full timeout; what was confirmed so far stands
+                                raise Undecided("the code under test hung on %d scenarios; stopping early" % self.hangs)
                             continue
                         if self._died_in_harness(i):
                             raise Undecided("the harness itself crashed (not the code under test): %s" % self._stderr_tail(i))
